@@ -76,8 +76,12 @@ def gen_body(rng):
         if rng.random() < 0.75:
             parts.append(rng.choice(STMTS))
         else:
-            g = gen_prog.Gen(random.Random(rng.getrandbits(64)), max_depth=3, max_nodes=12, avoid={"ctl_outside", "level_beyond"}, funcs=False)
-            t = g.seq(0, {"in_func": True}, 2)
+            from . import c02
+            for _ in range(50):
+                g = gen_prog.Gen(random.Random(rng.getrandbits(64)), max_depth=3, max_nodes=12, avoid={"ctl_outside", "level_beyond"}, funcs=False)
+                t = g.seq(0, {"in_func": True}, 2)
+                if not c02.in_known_region(t, {}):        # open C02 findings: behaviour differs from bash however the function got defined
+                    break
             parts.append(gen_prog.render(t, probes=False))
     form = rng.choice(["brace", "brace", "brace", "subshell", "brace_redir", "brace_redir2"])
     body = "\n".join(parts)
@@ -103,8 +107,14 @@ def run_in(shell, script, extra_env=None):
 def hazards(defn):
     """Open finding C02-F6: a `case` inside `( )` is printed as `( case ...` on one line, which brush's tokenizer cannot read
     back (the same defect C02 fences); definitions with a case inside a subshell are therefore skipped here."""
-    if "case " in defn and (defn.startswith("f() (") or "\n(\n" in defn or "\n  (\n" in defn or "\n    (\n" in defn or "$(" in defn):
+    import re
+    has_subshell = defn.startswith("f() (") or re.search(r"(^|[\s;&|!(])\(\s*\n", defn) is not None or "$(" in defn
+    if "case " in defn and has_subshell:
         return "case-inside-subshell"
+    # open finding C02-F7: break/continue inside a subshell inside a loop behaves differently from bash whichever way the function
+    # was defined - not a printing matter
+    if has_subshell and re.search(r"\b(break|continue)\b", defn):
+        return "break-continue-inside-subshell"
     import re
     if re.search(r"\(\s*\(", defn.replace("((", "  ").replace("$(", "  ")):
         return "nested-subshell-open"          # open finding C02-F5: printed `( ( ...` is read back as an arithmetic command
